@@ -1101,6 +1101,17 @@ class _CallMixin:
         # method call?
         if isinstance(fnode, ast.Attribute):
             recv = self.ev(fnode.value)
+            if fnode.attr in CONTAINER_MUTATORS and isinstance(fnode.value, ast.Name) and isinstance(self.simp(recv), Op) and \
+                    self.simp(recv).op in ("m:split", "m:splitlines", "m:readlines", "list", "sorted", "tuple_of", "reversed"):
+                # a fresh list produced by an operation the analysis keeps symbolic (text.split(...)) is mutated in place
+                # through its only name: from here on it is a tracked list whose first part is that symbolic sequence
+                val = self.simp(recv)
+                fr = self.frames[-1]
+                if sum(1 for v in fr.env.values() if v is val or v == val) > 1:
+                    raise AnalysisError("in-place %s() of an untracked list that has several names (line %s)" % (
+                        fnode.attr, getattr(n, "lineno", "?")))
+                recv = self.alloc(ListObj(self.born_now(), [("v", Op("splat", val), TRUE)], "list"))
+                self.assign(fnode.value, recv, n)
             return self.call_method(recv, fnode.attr, args, kwargs, n)
         f = self.ev(fnode)
         return self.call_value(f, args, kwargs, n)
@@ -2062,6 +2073,7 @@ class _LoopMixin:
         locs.sort(key=repr)
         init = {w: self.loc_get(w) for w in locs}
         lv = {w: Sym("lv%d:%s" % (L.lid, self.loc_name(w)), "loopvar", (L.lid, w)) for w in locs}
+        L.lv = lv
         # pass 2: one symbolic iteration with havoc'd loop-carried locations
         self.writelog = set()
         nd_before = len(fr.dead)
